@@ -51,3 +51,23 @@ Theorem C15_overshoot : forall c w k v w', below c w -> bw_insert w k v = Done w
   bw_size w' < wc_block_size c + len (frame k v) + 8.
 Proof. intros c w k v w' Hb Hi. pose proof (bw_insert_growth w k v w' Hi). unfold below in Hb. Lia.lia. Qed.
 Print Assumptions C15_overshoot.
+
+(* ================= at the byte level =================
+   Format.size_without_last computes, from a parsed block and its decoded entries alone, the size the
+   block had before its last entry was inserted (the start of the last entry, the footer slots minus
+   the one the last insert added, the 4-byte count).  For a block writer it is exactly the size
+   estimate before the last insert; so every block C15_cut speaks of parses, decodes, and satisfies
+   the predicate the correspondence evaluates on the emitted bytes: size_without_last < B *)
+From Grenad.model Require Import Reader Spec Format.
+From Grenad.proofs Require Import CutProofs.
+
+Theorem C15_size_without_last : forall w0 es0 k v w, bw_ok w0 es0 -> 1 <= bw_interval w0 -> bw_insert w0 k v = Done w ->
+  size_without_last (mk_block (payload_of (es0 ++ [(k, v)])) (rev (bw_offsets w))) (with_starts (es0 ++ [(k, v)]) 0) = bw_size w0.
+Proof. exact swl_justins. Qed.
+Print Assumptions C15_size_without_last.
+
+Theorem C15_cut_bytes : forall c w es buf, bw_ok w es -> bw_finish w = Done buf -> bw_len w < 2^64 -> 1 <= bw_interval w ->
+  (below c w \/ justins c w) ->
+  exists b bes, parse_block buf = Done b /\ block_entries b = Done bes /\ size_without_last b bes < wc_block_size c.
+Proof. exact cut_bytes. Qed.
+Print Assumptions C15_cut_bytes.
